@@ -478,6 +478,15 @@ pub fn run(seed: u64, shard: u64, cases: u64, only: Option<u64>, rep: &mut Repor
             world.mine(&(0..140).map(|_| vec![]).collect::<Vec<_>>(), id);
             let obs3 = run_teosd(&datadir, &c, internal, (false, false), fu, &btc, &api_cands, &rpc_cands, &user_id_hex, fu.1);
             lock(&btc.st.0).prune_height = None;
+            // back to a short chain: on the non-regtest networks the block source validates difficulty transitions at
+            // every 2016th height, which a chain of constant-difficulty test blocks must not reach
+            {
+                let mut cs = lock(&world.chain);
+                *cs = crate::chain::ChainState::new();
+                for _ in 0..105 {
+                    cs.mine(vec![]);
+                }
+            }
             r.count(&format!("e3cfg_force_update[file={},cli={}]", fu.0, fu.1), 1);
             let started = obs3.exited.is_none() && !obs3.api_answers.is_empty();
             if started != fu.1 {
